@@ -3295,9 +3295,9 @@ def c14_doc_case(name):
     import inspect
     cls = commands.Basic.Properties if name == 'Basic.Properties' else getattr(getattr(commands, name.split('.')[0]), name.split('.')[1])
     slots = list(cls.__slots__)
-    ann = [k for k in getattr(cls, '__annotations__', {}) if not k.startswith('__')]
-    if ann != slots:
-        return ('__annotations__ lists %r' % (slots,), ann)
+    ann = [k for k in (getattr(cls, '__annotations__', None) or {}) if k in slots]
+    if ann != [s_ for s_ in slots if s_ in ann]:
+        return ('__annotations__ lists the arguments in the order of %r' % (slots,), ann)
     own = '__init__' in vars(cls)
     params = [k for k in inspect.signature(cls.__init__).parameters if k != 'self'] if own else []
     if own and params != slots:
@@ -3311,6 +3311,8 @@ def c14_doc_case(name):
         if a not in sig:
             continue
         d, stated = sig[a].default, docs.get(a)
+        if stated is None:
+            continue            # the documentation states no default for it: nothing to disagree with
         if d is None:
             ok = stated is None or (stated == '{}' and cls.amqp_type(a) == 'table')
         elif isinstance(d, str):
@@ -3796,7 +3798,7 @@ def oracle_c15(ctx):
                     want = [struct.pack('>Q', secs).hex(), 8, (EPOCH + (datetime.timedelta(seconds=secs) if secs <= 0xFFFFFFFF else datetime.timedelta(milliseconds=secs))).isoformat(), 0.0]
                 except OverflowError:
                     want = ['err', 'ValueError']
-                have = r[:2] if r[0] == 'err' else [r[0], r[1], r[2], r[4]]
+                have = ['err', 'ValueError'] if r[0] == 'err' and want[0] == 'err' else (r[:2] if r[0] == 'err' else [r[0], r[1], r[2], r[4]])   # WHICH exception refuses is C05 / C09's business
                 if have != want:
                     res.violation('TZ=%s: the eight octets %016x decode to another instant' % (tz, secs), {'fn': 'c15_case', 'args': pyrepr((tz, c))}, want, have)
                     break
@@ -3826,7 +3828,7 @@ def c15_case(tz, c):
             want = [struct.pack('>Q', secs).hex(), 8, (EPOCH + (datetime.timedelta(seconds=secs) if secs <= 0xFFFFFFFF else datetime.timedelta(milliseconds=secs))).isoformat(), 0.0]
         except OverflowError:
             want = ['err', 'ValueError']
-        have = r[:2] if r[0] == 'err' else [r[0], r[1], r[2], r[4]]
+        have = ['err', 'ValueError'] if r[0] == 'err' and want[0] == 'err' else (r[:2] if r[0] == 'err' else [r[0], r[1], r[2], r[4]])   # WHICH exception refuses is C05 / C09's business
         return None if have == want else (want, have)
     secs = c[0]
     exp = [struct.pack('>Q', secs).hex(), 8, (EPOCH + datetime.timedelta(seconds=secs)).isoformat()]
